@@ -320,3 +320,6 @@ func GuardedByNoSuchKey(e Edge) bool {
 	})
 	return found
 }
+
+// NilTestOf is the exported form of anyNilTest.
+func NilTestOf(iff *ssa.If) (val ssa.Value, nilIdx int, ok bool) { return anyNilTest(iff) }
